@@ -6,6 +6,8 @@ package main
 import (
 	"fmt"
 	"go/types"
+	"regexp"
+	"strconv"
 	"strings"
 
 	"golang.org/x/tools/go/ssa"
@@ -586,7 +588,30 @@ func (e *Enc) elemIndex(off, i T) T {
 		e.emit("(declare-fun ix (Int Int) Int)")
 		e.emit("(assert\t(forall ((ixo Int) (ixi Int)) (! (= (ix ixo ixi) (+ ixo ixi)) :pattern ((ix ixo ixi)))))")
 	}
+	// a resliced slice s[c:] has offset (+ base c): index through the base so that facts about
+	// s[c+i] and s[c:][i] use the same term ix(base, c+i)
+	if base, c, ok := splitPlusConst(off.E); ok {
+		if v, isL := isLit(i); isL && v.IsInt64() {
+			return T{IntS, app("ix", base, IntLit64(IntS, c+v.Int64()).E)}
+		}
+		return T{IntS, app("ix", base, app("+", IntLit64(IntS, c).E, i.E))}
+	}
 	return T{IntS, app("ix", off.E, i.E)}
+}
+
+var plusConstRe = regexp.MustCompile(`^\(\+ ([^() ]+) (\d+)\)$`)
+
+// splitPlusConst recognises the term (+ atom literal).
+func splitPlusConst(t string) (string, int64, bool) {
+	m := plusConstRe.FindStringSubmatch(t)
+	if m == nil {
+		return "", 0, false
+	}
+	c, err := strconv.ParseInt(m[2], 10, 64)
+	if err != nil {
+		return "", 0, false
+	}
+	return m[1], c, true
 }
 
 func (e *Enc) addIdx(a, b T) T {
@@ -595,6 +620,12 @@ func (e *Enc) addIdx(a, b T) T {
 	}
 	if a.S.K == SBV {
 		return T{a.S, app("bvadd", a.E, b.E)}
+	}
+	// fold (+ (+ x c1) c2)
+	if base, c1, ok := splitPlusConst(a.E); ok {
+		if v, isL := isLit(b); isL && v.IsInt64() && v.Sign() >= 0 {
+			return T{a.S, app("+", base, IntLit64(IntS, c1+v.Int64()).E)}
+		}
 	}
 	return T{a.S, app("+", a.E, b.E)}
 }
